@@ -56,12 +56,14 @@ type dOp struct {
 	Changes []ChangeRec
 	Users   []dEntry
 	Anon    bool
+	Sub     []dOp // bind-burst: binds issued at the same time, each by its own client
 }
 
 type dResult struct {
 	Code    int
 	Err     string
 	Entries []dEntry
+	Sub     []dResult
 }
 
 type dClient struct {
@@ -191,6 +193,14 @@ func DrawDir(prop, tier string, ch *Chooser, lean bool, s *Sim) *Dir {
 				d.Ops = append(d.Ops, dOp{Kind: "set-anon", Anon: ch.Choose(2) == 1})
 			case 1:
 				d.Ops = append(d.Ops, dOp{Kind: "set-users", Users: mkUsers()})
+			case 2:
+				// several clients bind at the same moment: each answer must be
+				// the one its own credentials deserve
+				b := dOp{Kind: "bind-burst"}
+				for j, n := 0, 2+ch.Choose(3); j < n; j++ {
+					b.Sub = append(b.Sub, dOp{Kind: "bind", Client: (j + ch.Choose(2)) % nClients, DN: dns[ch.Choose(len(dns))], PW: pws[ch.Choose(len(pws))]})
+				}
+				d.Ops = append(d.Ops, b)
 			default:
 				d.Ops = append(d.Ops, dOp{Kind: "bind", Client: ch.Choose(nClients), DN: dns[ch.Choose(len(dns))], PW: pws[ch.Choose(len(pws))]})
 			}
@@ -426,6 +436,24 @@ func (d *Dir) drive(w *simrt.World) {
 		case "bind":
 			_, err := conn.SimpleBind(&ldap.SimpleBindRequest{Username: op.DN, Password: op.PW, AllowEmptyPassword: true})
 			res.Code, res.Err = codeOf(err)
+		case "bind-burst":
+			res.Sub = make([]dResult, len(op.Sub))
+			done := make(chan struct{}, len(op.Sub))
+			for j := range op.Sub {
+				j, sub := j, op.Sub[j]
+				w.Go(fmt.Sprintf("burst%d-%d", i, j), func() {
+					defer func() { done <- struct{}{} }()
+					if sub.Client >= len(d.Clients) || d.Clients[sub.Client].conn == nil {
+						res.Sub[j] = dResult{Code: -1, Err: "no connection"}
+						return
+					}
+					_, err := d.Clients[sub.Client].conn.SimpleBind(&ldap.SimpleBindRequest{Username: sub.DN, Password: sub.PW, AllowEmptyPassword: true})
+					res.Sub[j].Code, res.Sub[j].Err = codeOf(err)
+				})
+			}
+			for range op.Sub {
+				<-done
+			}
 		case "add":
 			ar := ldap.NewAddRequest(op.DN, nil)
 			var names []string
@@ -660,6 +688,13 @@ func (d *Dir) judge(s *Sim, op *dOp, res *dResult) {
 				"sibling": "presented the client certificate of another GetTLSConfig(WithMTLS) call, issued by that call's own CA"}[op.DN]))
 		case !offending && res.Code != 1:
 			s.Violate("C18", "isolated", "testdirectory-mtls conforming-client-rejected", fmt.Sprintf("a client with the directory's own client certificate got no response: %s", res.Err))
+		}
+	case "bind-burst":
+		s.Probe("C19-concurrent-binds")
+		for j := range op.Sub {
+			if j < len(res.Sub) && res.Sub[j].Code >= 0 {
+				d.judge(s, &op.Sub[j], &res.Sub[j])
+			}
 		}
 	case "bind":
 		s.Probe("C19-bind")
